@@ -16,8 +16,8 @@ func init() {
 		ID: "C06",
 		Explanation: `R06.1 every WoundKind the validator side can emit has a case in the healer's switch; ` +
 			`R06.2 in Validate's directory and symlink passes an error from os.Lstat/os.Readlink is returned only after a classification that tests both not-exist and not-a-directory (ENOTDIR arises when a parent was replaced by a file), otherwise it becomes a wound; ` +
-			`R06.3 repair actions: DIR - every success path consults os.Lstat, returns early only for a real directory, removes a non-directory before MkdirAll and otherwise ends in MkdirAll; SYMLINK - MkdirAll(parent), removal of whatever exists, then os.Symlink(entry.Dest, path) on every success path; FILE - queued once per file, marked before queued; ` +
-			`R06.4 the heal queue has capacity len(container.Files) so queueing never blocks. ` +
+			`R06.3 repair actions: DIR - every success path consults os.Lstat, returns early only for a real directory, removes a non-directory before MkdirAll and otherwise ends in MkdirAll; SYMLINK - MkdirAll(parent), removal of whatever exists, then os.Symlink(entry.Dest, path) on every success path; FILE - queued once per file and marked whenever queued; ` +
+			`(R06.4 of the design, queue capacity, was dropped as not necessary.) ` +
 			`NOT decided: that healed content equals the signed content, validator/healer interleavings, behaviour under cancellation.`,
 		Assumptions: []string{"the healer's repair switch is the function literal in ArchiveHealer.Do that switches on wound.Kind"},
 		Run:         runC06,
@@ -28,7 +28,6 @@ func runC06(c *core.Ctx) {
 	c.Rule("R06.1", "wound kinds emitted ⊆ kinds handled by the healer")
 	c.Rule("R06.2", "Lstat/Readlink errors in the dir/symlink passes are returned only after testing not-exist AND not-a-directory")
 	c.Rule("R06.3", "repair actions of the DIR / SYMLINK / FILE cases")
-	c.Rule("R06.4", "heal queue capacity = number of files")
 	kinds := woundKinds(c.P)
 	kindName := map[int64]string{}
 	for n, v := range kinds {
@@ -327,9 +326,19 @@ func runC06(c *core.Ctx) {
 				b, isB := core.ConstBool(mu.Value)
 				return isB && b
 			}
-			p := core.FindPathSkipping(repair, ifi, isInstr(sendInstr), isMark, caseSkip(kinds["FILE"]))
-			c.Check(p == nil, "R06.3", core.FnName(repair), "FILE: marked as queued before it is queued", core.InstrPos(sendInstr),
-				"files[idx] = true precedes the send", "a file index can be queued without being marked: it is queued again for every wound and the bounded queue fills up").Path = c.P.PathStrings(p)
+			// the file is marked as queued on every path that queues it (before or after the send: wounds are
+			// processed one at a time, so either order prevents a second queueing)
+			before := core.FindPathSkipping(repair, ifi, isInstr(sendInstr), isMark, caseSkip(kinds["FILE"])) == nil
+			after := true
+			if !before {
+				for _, rs := range successReturns(repair) {
+					if core.FindPath(repair, sendInstr, isInstr(rs.Ret), isMark) != nil {
+						after = false
+					}
+				}
+			}
+			c.Check(before || after, "R06.3", core.FnName(repair), "FILE: marked as queued whenever it is queued", core.InstrPos(sendInstr),
+				"files[idx] = true on every path through the send", "a file index can be queued without being marked: it is queued again for every further wound of that file")
 			guardedByLookup := hasGuard(sendInstr, func(g core.Guard) bool {
 				for _, o := range core.Origins(g.Cond) {
 					if lk, ok := o.(*ssa.Lookup); ok {
@@ -341,21 +350,13 @@ func runC06(c *core.Ctx) {
 			})
 			c.Check(guardedByLookup, "R06.3", core.FnName(repair), "FILE: queued at most once per file", core.InstrPos(sendInstr),
 				"the send is reached only when files[idx] was not yet set", "the queue send is not guarded by the once-per-file set")
-			// R06.4
-			okCap := false
+			// (R06.4 of the design — queue capacity len(container.Files) — was dropped: with a smaller queue the wound
+			// consumer merely waits for the healing goroutine, which keeps consuming; it is not a necessary condition)
 			for _, o := range core.Origins(queue) {
 				if mc, ok := o.(*ssa.MakeChan); ok {
-					if cl, ok := core.StripConv(mc.Size).(*ssa.Call); ok {
-						if b, ok := cl.Call.Value.(*ssa.Builtin); ok && b.Name() == "len" {
-							if _, n, ok := core.FieldOf(cl.Call.Args[0]); ok && n == "Files" {
-								okCap = true
-							}
-						}
-					}
+					c.Notes = append(c.Notes, "heal queue created with capacity "+core.Describe(mc.Size)+" (informational; not demanded)")
 				}
 			}
-			c.Check(okCap, "R06.4", core.FnName(do), "heal queue capacity", do.Pos(),
-				"make(chan int64, len(container.Files))", "the heal queue is not created with capacity len(container.Files): with many damaged files the wound consumer blocks on it")
 		}
 	}
 }
